@@ -1,7 +1,59 @@
 import BigDec.Model.Serde
-/-! # C17 (theorems under construction) -/
+import BigDec.Props.C04
+/-! # C17 — serde round trips
+
+`Serde.*` models the glue of src/impl_serde.rs: `Serialize` writes the `Display` text,
+`Deserialize` hands strings (and arbitrary-precision JSON number literals) to `from_str`, the
+JSON-number adapters add the zero special case and the scale limit.  With the formatting and parsing
+theorems (C04, C05) the round trips hold for every storable decimal; what remains tied to the code
+only by the correspondence check is that the glue is this composition (serde's own data model,
+`serde_json::Number`'s grammar, integer/float tokens). -/
 namespace BigDec
+open Fmt Parse
+
 /-- "00" (Display of a zero with scale -1) is not a JSON number; "0" is -/
 theorem C17_json_zero : Serde.isJsonNumber ['0', '0'] = false ∧ Serde.isJsonNumber ['0'] = true ∧
     Serde.isJsonNumber "-1.5E-7".toList = true ∧ Serde.isJsonNumber "123e+20".toList = true := by decide
+
+/-- default (string) form: serialize = Display, deserialize = `from_str`; the result is an equal
+    decimal, and the identical (digits, scale) pair whenever the scale is non-negative -/
+theorem C17_string_roundtrip (cfg : Config) (npl : Nat) (d : Dec) (h : d.Storable) :
+    (∃ d', parseDec (toBytes (display cfg npl {} d)) 10 = some d' ∧ d'.value = d.value) ∧
+    (0 ≤ d.scale → parseDec (toBytes (display cfg npl {} d)) 10 = some d) :=
+  ⟨C04_display_value cfg npl d h, C04_display_identical_of_nonneg_scale cfg npl d h⟩
+
+/-- JSON-number adapters: the emitted number text is read back as an equal decimal whenever the
+    scale respects the configured limit -/
+theorem C17_jsonnum_roundtrip (cfg : Config) (npl : Nat) (d : Dec) (h : d.Storable)
+    (hlim : d.scale.natAbs ≤ cfg.serdeScaleLimit ∨ cfg.serdeScaleLimit = 0) :
+    ∃ d', Serde.jsonNumDeserialize cfg (toBytes (Serde.jsonNumText cfg npl d)) = some d' ∧ d'.value = d.value := by
+  unfold Serde.jsonNumText Serde.jsonNumDeserialize
+  by_cases hz : d.int = 0 ∧ d.scale < 0
+  · rw [if_pos hz]
+    have hp : parseDec (toBytes ['0']) = some ⟨0, 0⟩ := by decide
+    rw [hp]
+    refine ⟨⟨0, 0⟩, ?_, ?_⟩
+    · simp
+    · unfold Dec.value; simp [hz.1]
+  · rw [if_neg hz]
+    rcases C04_display_roundtrip cfg npl d h with h1 | ⟨hneg, h2⟩
+    · rw [h1]
+      refine ⟨d, ?_, rfl⟩
+      have : ¬ (d.scale.natAbs > cfg.serdeScaleLimit ∧ cfg.serdeScaleLimit > 0) := by omega
+      simp only [this, if_false]
+    · rw [h2]
+      obtain ⟨d', hd', hv⟩ := C04_display_value cfg npl d h
+      rw [h2] at hd'
+      injection hd' with e
+      refine ⟨d', ?_, hv⟩
+      rw [← e]
+      simp
+
+/-- beyond the limit the adapter reports an error instead of a value -/
+theorem C17_jsonnum_limit (cfg : Config) (text : List Nat) (d : Dec) (hp : parseDec text = some d)
+    (hover : d.scale.natAbs > cfg.serdeScaleLimit) (hl : cfg.serdeScaleLimit > 0) :
+    Serde.jsonNumDeserialize cfg text = none := by
+  unfold Serde.jsonNumDeserialize
+  rw [hp]; simp [hover, hl]
+
 end BigDec
